@@ -45,13 +45,16 @@ def marshalKind {σ} [DecidableEq σ] [Repr σ] (rd : Rd σ) (c : Codec σ) (S :
   mkHandler (do let v ← rd; let p ← rd; pure (v, p)) (rdMObs rd)
     (fun (v, p) => modelM c v p)
     (fun (v, _) o => marshalOk S v o)
-    (fun (v, _) => S.inRange v)
+    -- C17 quantifies over in-range values (exact layout, round trip) AND over the out-of-range values
+    -- that must be refused (AudioLevel, PlayoutDelay); only values that are neither are outside it
+    (fun (v, _) => S.inRange v || S.reject v)
 
 def unmarshalKind {σ} [DecidableEq σ] [Repr σ] (rd : Rd σ) (c : Codec σ) (S : ExtSpec σ) : Handler :=
   mkHandler (do let p ← rd; let h ← Rd.list Rd.bytes; let b ← Rd.bytes; pure (p, h, b)) (rdUn rd)
     (fun (p, h, b) => modelU c p h b)
     (fun (_, _, b) o => unmarshalOk S b o)
-    (fun (_, _, b) => (S.decode b).isSome)
+    -- "decodes every byte string of at least the fixed size …, rejects shorter input, never panics":
+    -- every byte string is inside the quantifier
 
 /-! ### C18 -/
 open Rtp.Model.Ntp Rtp.Pred.C18
